@@ -8,6 +8,7 @@ from typing import Iterable
 from liquid2.builtin import LambdaExpression
 from liquid2.builtin import Path
 from liquid2.builtin import PositionalArgument
+from liquid2.builtin.expressions import _eq
 from liquid2.exceptions import LiquidTypeError
 from liquid2.filter import sequence_arg
 from liquid2.undefined import is_undefined
@@ -19,6 +20,11 @@ if TYPE_CHECKING:
     from liquid2.builtin import KeywordArgument
 
 MISSING = object()
+
+
+def _seen(keys: list[object], key: object) -> bool:
+    """Is _key_ equal, in the Liquid sense, to one of _keys_? `true` is not `1`."""
+    return any(_eq(k, key) for k in keys)
 
 
 class UniqFilter:
@@ -72,7 +78,7 @@ class UniqFilter:
 
             for item, rv in zip(left, key.map(context, left), strict=True):
                 current_key = MISSING if is_undefined(rv) else rv
-                if current_key not in keys:
+                if not _seen(keys, current_key):
                     keys.append(current_key)
                     items.append(item)
 
@@ -92,10 +98,14 @@ class UniqFilter:
                         token=None,
                     ) from err
 
-                if item not in keys:
+                if not _seen(keys, item):
                     keys.append(item)
                     result.append(obj)
 
             return result
 
-        return [obj for i, obj in enumerate(left) if left.index(obj) == i]
+        unique: list[object] = []
+        for obj in left:
+            if not _seen(unique, obj):
+                unique.append(obj)
+        return unique
